@@ -48,13 +48,17 @@ PROPERTIES = {
     },
     'C02': {
         'units': [sm.CalcCoefficiants, sm.UpdateSM, sm.KickMapApply],
+        'leaves': [leaf.CalcCoeffZeroLeaf],
         'lemmas': [sm.lemmas_weights],
+        # thorough tier, labelled bounded stand-in (exhaustive over the finite domain / fixed sizes), never counted as proved:
+        'native_sweep': {'harness': 'sm_replay', 'runs': [['weights', it_] for it_ in (1, 2, 3, 4)] +
+                         [['wholecell', N_, nb_, it_, ax_, 5] for N_ in (8, 16, 17) for nb_ in (1, 2) for it_ in (1, 2, 3, 4) for ax_ in (0, 1)]},
         'level': 'other',
         'claim': 'weights are the Lagrange basis on the stated nodes (partition of unity, reproduction of monomials below the order, unit vector at f=0) and '
-                 'the table row/stencil selection of updateSM/apply is proved for all sizes in ideal arithmetic; bit-exactness of whole-cell shifts and the rounding of the '
-                 '2^30 fractional weights are not covered by this check',
+                 'the table row/stencil selection of updateSM/apply is proved for all sizes in ideal arithmetic; bit-precisely (CBMC, IEEE single) the weights at offset fraction +-0 are exactly one unit weight and zeros for all four schemes. '
+                 'Thorough tier, bounded stand-in only: native enumeration of ALL 1 065 353 216 single-precision offsets in [0,1) per scheme through the real calcCoefficiants (sum and moments within 8 ulp), and bit-for-bit comparison of every representable whole-cell displacement on grids 8/16/17 with 1-2 bunches',
         'assumptions': [A_IDEAL, A_LIB, DROPS],
-        'uncovered': ['bit-for-bit equality of whole-cell shifts (needs IEEE semantics)', 'rounding error of the weights over all 2^30 single-precision offsets', 'RotationMap::genHInfo'],
+        'uncovered': ['bit-for-bit equality of whole-cell shifts as a proof for all grid sizes (bit-precise only for the weights; the table/apply part is ideal-arithmetic proof + bounded native comparison)', 'sign of a zero cell after a whole-cell shift (0*a + 1*(-0) is +0)', 'RotationMap::genHInfo (not used by main)'],
         'explanation': 'polynomial-reproduction lemmas over the contract weights plus the functional contracts of updateSM and apply; level other because rounding is not modelled',
         'technique': TECH,
     },
